@@ -84,7 +84,66 @@ func NewSharedFill(mask byte) *Shared {
 	s.SB = s.encBuf[98 : 98+32]
 	s.U = &field.Element{E: ref.Mont(valU, ref.P)}
 
+	if Past {
+		s.givePast()
+	}
+
 	return s
+}
+
+// Past selects the second kind of shared state: objects WITH A PAST. A freshly written element or scalar has never
+// been looked at; whatever the library attaches to an object when it is first encoded, compared or expanded (a memo of
+// its affine form, of its bit expansion, a lock that has been taken) is absent, and two threads that share it both
+// take the "first use" path. With Past set, every shared element and scalar has been read through every read-only
+// method and then changed in place THROUGH THE API (Double, Add) before it is shared, so that stale per-object state
+// is present when the concurrent calls begin. The values differ from the fresh state's; the oracle (each call's
+// result when run alone on a state built the same way, snapshot of the shared memory) does not depend on them.
+var Past bool
+
+func (s *Shared) givePast() {
+	other := rawElement(ref.G(), big.NewInt(7))
+
+	for _, e := range []*secp256k1.Element{s.E1, s.E2, s.E0} {
+		_ = e.Encode()
+		_ = e.EncodeUncompressed()
+		_ = e.Hex()
+		_ = e.XCoordinate()
+		_ = e.Equal(other)
+		_ = other.Equal(e)
+		_ = e.IsIdentity()
+		_ = e.Copy()
+	}
+
+	s.E1.Double()
+	s.E2.Add(other)
+
+	one := rawScalar(big.NewInt(1))
+
+	for _, x := range []*secp256k1.Scalar{s.S1, s.S2, s.S3, s.S4, s.S0} {
+		_ = x.Bits()
+		_ = x.Encode()
+		_ = x.Hex()
+		_ = x.IsZero()
+		_ = x.IsOne()
+		_ = x.Equal(one)
+		_ = x.LessOrEqual(one)
+		_ = x.Copy()
+	}
+
+	s.S1.Add(one)
+	s.S2.Multiply(rawScalar(big.NewInt(3)))
+}
+
+// UsesSharedObject reports whether the operation names a shared element or scalar (the scenarios that are repeated on
+// shared state with a past).
+func UsesSharedObject(name string) bool {
+	for _, m := range []string{"E1", "E2", "S1", "S2"} {
+		if strings.Contains(name, m) {
+			return true
+		}
+	}
+
+	return false
 }
 
 // Snapshot serialises every shared byte and limb.
